@@ -763,3 +763,10 @@ func Try(f func()) (panicked bool, site string, val interface{}) {
 	f()
 	return
 }
+
+// Sample0 records a run-level sample (for searches whose cases carry none).
+func (r *Run) Sample0(v interface{}) {
+	r.mu.Lock()
+	r.samples = append(r.samples, v)
+	r.mu.Unlock()
+}
